@@ -28,7 +28,19 @@ META = {
 GROUP = "layoutops"
 REQ = ("From RV Require Import Prelude.\nFrom Tensor Require Import Overlap.\n"
        "From LayoutOps Require Import ArrayModel LayoutOps ModelC09.\nOpen Scope N_scope.")
-THEOREMS = []
+THEOREMS = ["C09_clamp_resolves", "C09_index_range_is_python_slice", "C09_index_range_no_panic",
+            "C09_slice_denotes", "C09_slice_ok_defined", "C09_slice_error", "C09_slice_release_mode",
+            "C09_slice_copy_is_numpy",
+            "C09_index_axis_denotes", "C09_index_axis_error", "C09_slice_axis_denotes", "C09_slice_axis_error",
+            "C09_split_denotes", "C09_split_error",
+            "C09_permuted_denotes", "C09_permuted_error", "C09_transposed_denotes",
+            "C09_move_axis_denotes", "C09_move_axis_error",
+            "C09_broadcast_denotes", "C09_broadcast_error",
+            "C09_squeezed_denotes", "C09_insert_axis_denotes", "C09_insert_axis_error",
+            "C09_remove_axis_denotes", "C09_remove_axis_error", "C09_merge_axes_preserves_order",
+            "C09_reshaped_for_view_denotes", "C09_reshaped_for_view_error",
+            "C09_op_correct", "C09_op_error_means_undefined", "C09_chain_matches_reference",
+            "C09_never_lossy", "C09_nonvacuous"]
 
 
 def classify(case):
@@ -49,15 +61,23 @@ def main(ctx):
     ctx.assumptions += ["usize arithmetic on strides/offsets does not overflow (C06's obligation), except stride*step in slice_layout "
                         "which the model evaluates mod 2^64"]
     ctx.audit(GROUP, "tensor")
-    failed = ctx.prove(GROUP, "Props_C09", THEOREMS) if THEOREMS else []
+    # this group only needs Overlap.vo of the `tensor` group; do not let unrelated work in
+    # progress there (other properties' proof files) break this check
+    orig_make = ctx.make
+
+    def make(group, targets=None, timeout=1800, clean=False):
+        if group == "tensor" and targets is None:
+            targets = ["Overlap.vo"]
+        return orig_make(group, targets, timeout, clean)
+    ctx.make = make
+    failed = ctx.prove(GROUP, "Props_C09", THEOREMS)
     bindir = ctx.harness(GROUP, profile="release", bins=["c09"])
     replay = ctx.replay_inputs()
     sr_replay = [l for l in (replay or []) if l.count("|") == 3]
     ch_replay = [l for l in (replay or []) if l.count("|") != 3]
     if replay is None or sr_replay:
         cases = ctx.gen_exec(bindir, "c09", 0, extra_gen=("sr",), exec_args=("exec-sr",), inputs=sr_replay or None)
-        ctx.correspond("SliceRange", GROUP, REQ, cases, classify=classify, show="show_sr", agree="agree_sr",
-                       prop_ok="prop_ok_sr", fn_name="LayoutOps.{sr_clamp,sr_resolve,sr_steps,sr_index_range,slice,slice_copy}")
+        ctx.correspond("SliceRange", GROUP, REQ, cases, classify=classify, show="show", shard=1000, fn_name="LayoutOps.{sr_clamp,sr_resolve,sr_steps,sr_index_range,slice,slice_copy}")
     if replay is None or ch_replay:
         cases = ctx.gen_exec(bindir, "c09", ctx.n(2000, 40000), inputs=ch_replay or None)
         ctx.correspond("layout-chains", GROUP, REQ, cases, classify=classify, show="show", shard=250,
